@@ -217,7 +217,6 @@ def jErr : L1.Err → Json
   | .os (.code 21) => Json.mkObj [("err", "os:Gemato.L1.Errno.EISDIR")]
   | .os (.code k) => Json.mkObj [("err", Json.str s!"os:code:{k}")]
   | .os e => Json.mkObj [("err", Json.str s!"os:{repr e}")]
-  | .compress => Json.mkObj [("err", "compress")]
   | .internal k => Json.mkObj [("err", Json.str (match k with
       | .index => "internal:IndexError" | .assertion => "internal:AssertionError" | .attribute => "internal:AttributeError"
       | .key => "internal:KeyError" | .valueError => "internal:ValueError" | .overflowError => "internal:OverflowError"
